@@ -120,6 +120,46 @@ call PL14()
 `,
 }
 
+func init() {
+	c08CallGraphShapes = append(c08CallGraphShapes,
+		// nested map calls where one element of the outer literal is null
+		`stage S(
+    in  int x,
+    out int o,
+    src comp "/bin/true",
+)
+
+pipeline INNER(
+    in  int[] sigma,
+    out int[] o,
+)
+{
+    map call S(
+        x = split self.sigma,
+    )
+
+    return (
+        o = S.o,
+    )
+}
+
+pipeline TOP(
+    out int[][] o,
+)
+{
+    map call INNER(
+        sigma = split [[1], [2], null],
+    )
+
+    return (
+        o = INNER.o,
+    )
+}
+
+call TOP()
+`)
+}
+
 var posRe = regexp.MustCompile(`[^\s:]+:\d+|line \d+`)
 
 var hostileTokens = []string{
